@@ -1,4 +1,4 @@
-HOOK_COMMITS = ["74bf6ff", "82c1591", "9aba3ab", "7b80cf4", "aa851e5", "4f43e9e", "0d9cb6c", "ac67f30", "f87827f", "49c2432", "902f705", "c680004", "8c2f76b"]
+HOOK_COMMITS = ["74bf6ff", "82c1591", "9aba3ab", "7b80cf4", "aa851e5", "4f43e9e", "0d9cb6c", "ac67f30", "f87827f", "49c2432", "902f705", "c680004", "8c2f76b", "4c8724e"]
 
 ALL = ["C%02d" % i for i in range(1, 21)]
 
@@ -9,7 +9,7 @@ SEQ_NOTE = ("Trusted: Coq kernel; extraction (ExtrOcamlBasic); OCaml replayer; G
 SEQ_TECH = "Coq refinement proof (congruence of the concrete step w.r.t. live contents, induction over runs) + model/implementation correspondence replay"
 
 MAINT_NOTE = ("Trusted: Coq kernel; extraction; OCaml replayer; Go harness; the hook verifPoint(1) and VerifAudit (tag verif). Modelled, not verified: "
-              "floating-point window sizing and hill climber (maxima <= 12 in the closed-loop engine), maphash (hashes read from the implementation), the striped read buffer as one ring. "
+              "the floating-point parts of window sizing (initial maxima, the hill climber's amount: inputs read from the implementation; what the climber moves is modelled and proved invariant-preserving for every amount; closed-loop cases with maxima up to 96), maphash (hashes read from the implementation), the striped read buffer as one ring. "
               "Proved over all event lists: the policy bookkeeping invariant with tasks reaching the write buffer in any order (PolicyInv.v, C05) and the timer-wheel placement invariant (WheelInv.v, C13). "
               "that the eviction loop restores the bound within its fuel (PolicyBound.v, C04). Equalities of counters are modulo 2^64; the window / protected maxima are inputs of the model.")
 MAINT_TECH = "Coq proof (loop-step lemmas, invariants) over an executable policy/wheel model + closed-loop model/implementation replay with internal-state audit"
